@@ -8,7 +8,7 @@ CHECKS = {
    text='Every call of the TYPED alphabet is applied to every state reachable over a finite path universe on every backend configuration (BFS to fixpoint, rebuild by replay); outcome, required error kinds and the complete observable snapshot are compared with an abstract-tree model after every transition. Histories of unbounded length are covered wherever the fixpoint is reached.',
    note='alphabet bound (<=14 paths, <=3 components, listed names and contents), stack height <=3; state key = raw snapshots of the base filesystems', ref='3/C01'),
  'C02': dict(engine='seq(pair)', cat='model_checking', tech='product explicit-state BFS: MemoryFS and PhysicalFS in lock-step, each the other\'s oracle',
-   text='The same histories are replayed on a fresh MemoryFS and a fresh PhysicalFS; BFS over the joint raw state; after every call the two must agree on Ok/Err, on the not-found and already-exists classes and on the full observable tree and bytes.',
+   text='The same histories are replayed on a fresh MemoryFS and a fresh PhysicalFS; BFS over the joint raw state; after every call the two must agree on Ok/Err, on the not-found and already-exists classes and on the full observable tree and bytes. Write/seek/flush scripts of depth 4 on create handles of both backends are compared with a common cursor model.',
    note='host filesystem tmpfs; names accepted by it; alphabet bound', ref='3/C02'),
  'C03': dict(engine='seq', cat='model_checking', tech='explicit-state BFS to fixpoint, well-formedness invariant on every reached state',
    text='Every call (no type restriction) on every path in every reachable state of every configuration incl. overlays with populated lower layers; the invariant (root is a directory, every entry has a directory parent and is reached by walk_dir, no non-empty directory becomes a file) is evaluated on the top-level namespace and on every base filesystem after every transition. Write handles kept open across other calls (open / write+flush / write+drop as letters of the alphabet, the handle being part of the state) are explored on Mem, Phys, Alt and Overlay.',
@@ -17,7 +17,7 @@ CHECKS = {
    text='In every reachable state every path of the universe (plus everything listings reveal) is observed with exists/metadata/is_file/is_dir/read_dir/open+read and walk_dir from every directory; the observers must tell one consistent story (model-free). Includes the states reached with a write handle kept open across other calls.',
    note='alphabet bound incl. prefix-sharing, dotted and multi-byte names', ref='3/C05'),
  'C07': dict(engine='seq(pair)', cat='model_checking', tech='product explicit-state BFS of altroot and translated twin + exhaustive hostile-join sweep with recorded underlying calls',
-   text='Alt(Recorder(X),P) and a twin X\' are explored in lock-step (op(q) vs op(P/q)); outcomes, sub-tree views and raw snapshots must agree; every path argument reaching X lies below P and the snapshot outside P (and outside the PhysicalFS root, at OS level) is unchanged; every join argument of <=3-4 hostile segments x 18 call kinds is swept.',
+   text='Alt(Recorder(X),P) and a twin X\' are explored in lock-step (op(q) vs op(P/q)); outcomes, sub-tree views and raw snapshots must agree; every path argument reaching X lies below P and the snapshot outside P (and outside the PhysicalFS root, at OS level) is unchanged; every join argument of <=3-4 hostile segments x 18 call kinds is swept. Three pairs also run the timestamp setters and compare which entries carry the written instant.',
    note='symlinks out of scope; alphabet bound; P of depth 0..3', ref='3/C07'),
  'C08': dict(engine='seq', cat='model_checking', tech='explicit-state BFS over overlays with recording wrappers on every layer',
    text='All calls incl. explicit observer calls in every reachable state of overlays with populated lower layers: the recorder log of lower layers never shows a mutating method, observers issue no mutating call to any layer, deep snapshots (type, bytes, created, modified) of lower layers are unchanged.',
@@ -39,13 +39,13 @@ CHECKS.update({
    text='(a) every script of d write/seek/flush steps on create and append handles of every backend (overlay copy-up included), a fresh reader after every flush and after drop, against std::io::Cursor; (b) BFS to fixpoint of all create/append/copy/move/remove session sequences over two paths against the byte model; (c) boundary lengths (0..65537) x read buffer sizes and read strategies (read_to_end, read_exact, BufReader) through write, copy_file, move_file, append and overwrite; after a copy, later sessions on the original must not reach the copy and vice versa.',
    note='script depth d (quick 4 / 3 on physical, thorough 5); fixed non-UTF-8 byte pattern; a zero-length write past the end is not compared (Cursor<Vec> and POSIX differ, the contract is silent)', ref='3/C04'),
  'C06': dict(engine='path', cat='model_checking', tech='exhaustive enumeration of all argument strings up to a length bound + BFS over path values against a lexical-resolution reference',
-   text='Every string over {/ . a b e-acute} up to length L joined onto 6 bases for VfsPath and AsyncVfsPath, associativity for all pairs of short strings, BFS over path values with join/parent/root; result, canonical form, parent/filename/extension/is_root/equality compared with a reference resolver.',
+   text='Every string over {/ . a b e-acute} up to length L joined onto 6 bases for VfsPath and AsyncVfsPath, associativity for all pairs of short strings, BFS over path values with join/parent/root; equality matrix over 17 ways of producing three paths on two filesystem instances; result, canonical form, parent/filename/extension/is_root/equality compared with a reference resolver.',
    note='L = 6 (quick) / 8 (thorough); longer strings and other characters are not covered (the random part of the property is not done: sampling)', ref='3/C06'),
  'C11': dict(engine='seq+xfer', cat='model_checking', tech='explicit-state BFS with the composite calls in the alphabet + exhaustive source-tree x destination x backend-pair enumeration against a two-tree model',
    text='(a) create_dir_all / remove_dir_all / copy_* / move_* applied in every reachable state of every backend (model comparison); (b) every source tree over {a,a/a,a/b,b} with 4 contents x 6 destination classes x 4 calls x ordered pairs of backend instances (two filesystems, two instances of one backend, the same instance) against a two-tree model: exact copy, source untouched / gone, count, refusal of existing destinations without side effects.',
    note='alphabet bound; destinations outside the source subtree', ref='3/C11'),
- 'C13': dict(engine='all', cat='model_checking', tech='catch_unwind around every call of exhaustive explorations: unrestricted BFS incl. root removal, handle scripts, handles vs removals, hostile on-disk contents, EmbeddedFS, join strings',
-   text='No panic in: BFS with the unrestricted alphabet including removal of the root and the states after it and type-inconsistent overlay layerings; read/write/seek scripts at every offset; handles used while their file or parent is removed or replaced; every call on / next to / below hostile on-disk entries; every operation on every path of the embedded fixtures; all join strings up to the bound. OverlayFS::new(&[]) is asserted to panic.',
+ 'C13': dict(engine='all', cat='model_checking', tech='catch_unwind around every call of exhaustive explorations: unrestricted BFS incl. root removal, handle scripts, reader+writer interplay with removals, hostile on-disk contents, EmbeddedFS, join strings',
+   text='No panic in: BFS with the unrestricted alphabet including removal of the root and the states after it and type-inconsistent overlay layerings; read/write/seek scripts at every offset; a read and a write handle on one file opened, used, dropped and re-opened in every order while the file or its parent is removed or replaced (sync and async); every call on / next to / below hostile on-disk entries; every operation on every path of the embedded fixtures; all join strings up to the bound. OverlayFS::new(&[]) is asserted to panic.',
    note='copy_dir/move_dir into the own subtree excluded (documented); the async port has its own sweep: unrestricted product BFS, reader scripts incl. offsets next to u64::MAX / i64::MIN, poll plans, all under catch_unwind', ref='3/C13'),
  'C14': dict(engine='handle', cat='model_checking', tech='exhaustive read/seek and write/seek/flush scripts on handles of every backend, call by call against std::io::Cursor',
    text='Every script of d steps over 16 reader steps (reads of 0/1/2/5 bytes, seeks from Start/Current/End before the start, inside, at and past the end) on files of 0, 1 and 4 bytes from Mem, Phys, Alt, Overlay (upper and lower) and Embedded, and every script over 13 writer steps on create and append handles, compared call by call (return values, bytes, positions, published bytes) with std::io::Cursor.',
@@ -57,7 +57,7 @@ CHECKS.update({
    text='For every small program (2 threads x 1 call/session over the full alphabet on overlapping paths x 4 initial states, all (2,1)-call programs of mutators on two paths, and the same at the FileSystem trait level; thorough: 3 threads, 2 calls per thread) all interleavings at MemoryFS lock granularity are executed on the real code; per-thread results and final raw state of every schedule must equal those of some program-order-respecting sequential execution on a fresh MemoryFS; no panic, no deadlock (watchdog), and the final tree of every schedule is well-formed.',
    note='scheduling points = the verif-hooks yield points before each lock acquisition (exact for a single-lock safe-Rust structure); no preemption bound in quick; error kinds are compared in the FileSystem-trait-level program class (one critical section per call), not at the path level (a VfsPath call is several filesystem calls)', ref='3/C16'),
  'C17': dict(engine='sched', cat='model_checking', tech='stateless exhaustive schedule enumeration of k concurrent create_dir_all calls on all path multisets',
-   text='k = 2,3 (thorough 4) threads each calling create_dir_all on every multiset of 7 paths sharing prefixes of every length, on MemoryFS, AltrootFS, OverlayFS (empty and with the shared prefix only in the lower layer) at lock granularity and on PhysicalFS at create_dir call granularity: every call returns Ok and every prefix is a directory under every interleaving.',
+   text='k = 2,3 (thorough 4) threads each calling create_dir_all on every multiset of 7 paths sharing prefixes of every length, on MemoryFS, AltrootFS, OverlayFS (empty and with the shared prefix only in the lower layer) at lock granularity and on PhysicalFS at create_dir call granularity: also with the shared prefix removed through the filesystem before the race starts (overlay deletion markers in place): every call returns Ok and every prefix is a directory under every interleaving.',
    note='PhysicalFS: mkdir(2) atomic, nobody else touches the scratch directory; classes with a preemption bound are labelled in the evidence', ref='3/C17'),
  'C18': dict(engine='embed', cat='model_checking', tech='exhaustive enumeration of every public operation on every path of a derived finite path set of an immutable (single-state) filesystem, PhysicalFS on the same folder as oracle',
    text='EmbeddedFS is immutable, so one state per fixture and depth-1 closure is all histories: every observer, read_to_string, walk_dir, reader scripts and every mutator (incl. transfers into / out of / inside it) on every path of the path set (files, implied directories, root, absent siblings, prefixes/extensions of names, paths below files) of two fixtures, compared with PhysicalFS on the same folder; mutators are refused (not-supported when their ordinary preconditions hold) and change nothing.',
